@@ -527,6 +527,8 @@ class Engine:
     def spec_inline(self, it, fi, args, kwargs):
         """evaluate a pure repository getter in spec mode: straight-line body of assignments and a return"""
         st = it.st
+        if fi.key not in [f['function'] for f in self.result.fingerprints]:
+            self.result.fingerprints.append(self.repo.fingerprint(fi))
         env = it.bind_args(fi, args, kwargs)
         st.frames.append(Frame(fi, env, fi.cls.name if fi.cls else None))
         try:
@@ -1381,6 +1383,10 @@ class Engine:
             return self.spec_count(it, node)
         if name == 'implies':
             a = it.gtruth(node.args[0])
+            if z3.is_false(z3.simplify(a)):
+                # the consequent is not evaluated when the antecedent is literally false (it may mention names that do not
+                # exist in this state, e.g. in a call-out assertion that is about another call-out)
+                return VBool(z3.BoolVal(True))
             b = it.gtruth(node.args[1])
             return VBool(z3.Implies(a, b))
         if name == 'iff':
